@@ -57,7 +57,8 @@ class Transform(data_input.DataInputAbstract, Numbered_MCNP_Object):
 
             # parse rotation
             values = []
-            for j, word in enumerate(words.nodes[i:]):
+            # the values as they are after shortcuts have been expanded, not the raw nodes
+            for j, word in enumerate(list(words)[i:]):
                 values.append(word.value)
                 i += 1
                 if j >= 8:
